@@ -40,11 +40,13 @@ CLAIMS = {
           "Process/handlers/PostProcess keeps every fid at exactly one reference between requests and the set of fids in the table is "
           "exactly the set the protocol history (requests and the replies sent) determines (specValid, written from the statement); "
           "unknown_fid_refused, attach_in_use_refused, auth_in_use_refused: invalid / already bound fids are refused with the stated "
-          "error, nothing forwarded, table untouched; conn_private. Correspondence: ~2.5k (quick) random histories on a real Conn with a "
+          "error, nothing forwarded, table untouched; conn_private; destroyed_exactly_once (in the step of any request a fid number is "
+          "reported destroyed at most once, it is reported when the request invalidates a valid fid, and whatever is reported is invalid "
+          "afterwards — in the same step as the reply). Correspondence: ~2.5k (quick) random histories on a real Conn with a "
           "scripted implementation compare reply, calls, FidDestroy log and the whole fid table after every request; an independent Go "
           "oracle of the property runs on the same observations.",
-  "note": TB + "Sequential histories only (each request answered before the next is sent); destroy-exactly-once is checked by the oracle "
-          "and the differential run, its Lean statement is future work; user binding is compared, not yet a theorem.",
+  "note": TB + "Sequential histories only (each request answered before the next is sent); user binding is compared by the "
+          "differential run, not yet a theorem.",
  },
  "C05": {
   "technique": "Lean 4 proof (guard theorems for every rule of the statement, for all states, arguments and implementations; no-wrap count rule over all 32-bit counts) + differential correspondence",
